@@ -26,6 +26,9 @@ type c03Case struct {
 	Prefix []asmcat.Op `json:"prefix"`
 	V      uint32      `json:"v"`
 	CPU    bool        `json:"cpu"` // also run the library's own CPUs on the bytes
+	// Rebase != 0: SetBase is called again after the prefix (a second routine, assembled for another address,
+	// stored right behind the first)
+	Rebase uint32 `json:"rebase,omitempty"`
 }
 
 func c03NewEmitter(c c03Case, size int) (*asm.Emitter, error) {
@@ -37,6 +40,9 @@ func c03NewEmitter(c c03Case, size int) (*asm.Emitter, error) {
 		if _, p := asmcat.ApplyReal(em, op); p != nil {
 			return nil, fmt.Errorf("prefix op %v refused: %v", op, p)
 		}
+	}
+	if c.Rebase != 0 {
+		em.SetBase(c.Rebase)
 	}
 	em.AssumeSEP(asm.Flags(c.Flags))
 	return em, nil
@@ -356,9 +362,20 @@ func TestC03(t *testing.T) {
 				c := c03Case{Method: m.Name, Flags: rapid.Byte().Draw(t, "flags"), CPU: true}
 				if rapid.Bool().Draw(t, "with-base") {
 					c.Base = rapid.Uint32Range(1, 0xff0000).Draw(t, "base")
+					if rapid.IntRange(0, 3).Draw(t, "base-at-bank-end") == 0 {
+						// the instruction ends at, or runs across, the last byte of a bank: PC() still advances by its length
+						c.Base = uint32(rapid.IntRange(0, 0xFE).Draw(t, "base-bank"))<<16 | uint32(0x10000-rapid.IntRange(1, 8).Draw(t, "below-bank-end"))
+						ev.Class("base-within-8-bytes-of-a-bank-end")
+					}
 				}
 				c.Prefix = asmcat.GenHistory(t, asmcat.GenOpts{MaxOps: 3, Data: true, Assume: true})
 				c.V = rapid.Uint32Range(0, 0xffffff).Draw(t, "v")
+				if rapid.IntRange(0, 3).Draw(t, "rebase") == 0 {
+					c.Rebase = rapid.Uint32Range(1, 0xff0000).Draw(t, "rebase-to")
+					if needOf(c.Prefix) > 0 {
+						ev.Class("SetBase-called-again-after-bytes-were-emitted")
+					}
+				}
 				r.Check(t, "rapid", c, func() error { return c03Check(c) })
 				raw, _ := json.Marshal(c)
 				ev.Case(true, rig.Hash64(raw), func() interface{} { return c })
